@@ -165,7 +165,9 @@ Section WildLib.
     i_fin_last : match rev Fin with t :: _ => bid t = ri (libref (db s)) | [] => ri (libref (db s)) = ri r0 end;
     i_head : match last_sent s with
              | None => S = [] /\ Fin = [] /\ (forall e, In e (store (db s)) -> esent e = false) /\
-                       (c_incl cfg = true -> find (ri r0) (store (db s)) = None)
+                       (c_incl cfg = true -> find (ri r0) (store (db s)) = None) /\
+                       (* the LIB that the first delivered event will carry *)
+                       ri (cursor_lib s) = ri r0
              | Some hd => In hd U /\
                  exists p, chain (store (db s)) (bid hd) (ri (libref (db s))) p /\
                            S = rev (Fin ++ map eb p) /\ Forall (fun e => esent e = true) p
@@ -180,7 +182,8 @@ Section WildLib.
      [ constructor; cbn;
        [ constructor | intros e [] | exact L_id | right; reflexivity | intros e [] | intros e [] ]
      | reflexivity
-     | split; [reflexivity|]; split; [reflexivity|]; split; [intros e [] | reflexivity] ]).
+     | split; [reflexivity|]; split; [reflexivity|]; split; [intros e []|]; split; [reflexivity|];
+       unfold cursor_lib; cbn; destruct (is_empty r0); reflexivity ]).
   Qed.
 
   Definition tipid (Fin : list block) : N := match rev Fin with t :: _ => bid t | [] => ri r0 end.
@@ -254,10 +257,11 @@ Section WildLib.
     - unfold MovingLibInv.incl_first in Hni. destruct (last_sent s) as [hd|].
       + destruct Hh as (HhU & p & Hc & HS & Hs). split; [exact HhU|].
         exists p. repeat split; try assumption. apply chain_ext. exact Hc.
-      + destruct Hh as (-> & -> & Hall & Hroot). cbn [rev] in Hflast. split; [reflexivity|]. split; [reflexivity|]. split.
+      + destruct Hh as (-> & -> & Hall & Hroot & Hcur). cbn [rev] in Hflast. split; [reflexivity|]. split; [reflexivity|]. split; [|split].
         * intros e He. apply in_app_or in He as [He|[<-|[]]]; [apply Hall; exact He | reflexivity].
         * intros Hi. rewrite find_app, (Hroot Hi). cbn [find eb].
           rewrite Hi, Hflast in Hni. cbn [andb] in Hni. rewrite Hni. reflexivity.
+        * exact Hcur.
   Qed.
 
   (* below the LIB id the undo chain never meets an entry of a chain that rests on the LIB id *)
@@ -355,7 +359,8 @@ Section WildLib.
       apply_all (ri r0) S (evU ++ evRN) = Some (rev (Fin ++ map eb (pP ++ [mkEntry b false]))) /\
       Inv s3 Fin (rev (Fin ++ map eb (pP ++ [mkEntry b false]))) /\
       keys (store (db s3)) = keys (store (db s1)) /\ last_sent s3 = Some b /\
-      libref (db s3) = libref (db s1) /\ nsd (db s3) (bid b).
+      libref (db s3) = libref (db s1) /\ nsd (db s3) (bid b) /\
+      Forall (fun e => elib e = cursor_lib s1) (evU ++ evRN) /\ evU ++ evRN <> [].
   Proof.
     intros HI Hb Hc HP HC HS Hnsd.
     pose proof HI as [Hd Hflast Hh]. pose proof Hd as [Hnd HU Hlid Hextra Hlc Hrt].
@@ -377,7 +382,10 @@ Section WildLib.
     { rewrite Hls, unsent_map, Hun, map_app, rev_app_distr. reflexivity. }
     assert (Hkeys : keys (store (db s3)) = keys (store (db s1))) by (rewrite Hst; apply mark_all_keys).
     pose proof (inv_linked s1 Fin S _ _ HI Hc) as Hlk. fold q in Hlk.
-    split; [|split; [|repeat split; try assumption]].
+    assert (HmRN0 : map eblk (evR ++ evN) = map eb (R ++ [en])).
+    { rewrite map_app, HmR, HmN, unsent_map, map_map. cbn [sent seg_of].
+      change (fun x : entry => eb x) with eb. rewrite Hun, HR, F1, <- map_app, app_assoc. reflexivity. }
+    split; [|split; [|split; [|split; [|split; [|split; [|split]]]]]]; try assumption.
     - (* the consumer *)
       rewrite HS, map_app, app_assoc, rev_app_distr.
       rewrite (apply_all_app _ _ evU _ (rev (Fin ++ map eb C))).
@@ -421,6 +429,8 @@ Section WildLib.
           apply in_or_app. right. left. reflexivity. }
         exact (anc_irrefl _ (anc_trans _ _ _ Hab Ha)).
       + exact (anc_irrefl _ Ha).
+    - intros E. apply app_eq_nil in E as [_ E]. rewrite E in HmRN0. cbn [map] in HmRN0.
+      rewrite map_app in HmRN0. destruct (map eb R); discriminate.
   Qed.
 
   (* ---------------------------------------------------------------- the triggering step, second half: the LIB *)
@@ -576,15 +586,20 @@ Section WildLib.
       (known s b -> s' = s /\ evA = [] /\ evQ = []) /\
       (* known blocks stay known as long as the LIB NUMBER does not decrease *)
       (rn (libref (db s)) <= rn (libref (db s')) -> forall x, In x U -> known s x -> known s' x) /\
-      known s' b.
+      known s' b /\
+      (* the first event ever delivered carries the LIB id the stream is rooted at *)
+      (last_sent s = None ->
+       match evA ++ evQ with e0 :: _ => ri (elib e0) = ri r0 | [] => last_sent s' = None end).
 
   Lemma stepout_quiet s Fin S b s' : Inv s' Fin S ->
     (known s b -> s' = s) -> (forall x, In x U -> known s x -> known s' x) -> known s' b ->
+    last_sent s' = last_sent s ->
     StepOut s Fin S b (s', [], ROk).
   Proof.
-    intros HI Hk1 Hk2 Hk3. exists s', [], [], Fin, S.
+    intros HI Hk1 Hk2 Hk3 Hls. exists s', [], [], Fin, S.
     split; [reflexivity|]. split; [reflexivity|]. split; [exact HI|].
-    split; [constructor|]. split; [intros H; auto|]. split; [intros _; exact Hk2 | exact Hk3].
+    split; [constructor|]. split; [intros H; auto|]. split; [intros _; exact Hk2|]. split; [exact Hk3|].
+    intros H. cbn [app]. congruence.
   Qed.
 
   (* assembling a triggering step from its two halves *)
@@ -593,9 +608,10 @@ Section WildLib.
     apply_all (ri r0) S evs = Some S3 -> Inv s3 Fin S3 ->
     keys (store (db s3)) = keys (store (db s)) ++ [bid b] -> last_sent s3 = Some b ->
     libref (db s3) = libref (db s) -> bid b <> ri (libref (db s3)) -> nsd (db s3) (bid b) ->
+    evs <> [] -> (last_sent s = None -> Forall (fun e => ri (elib e) = ri r0) evs) ->
     StepOut s Fin S b (lib_tail s3 b evs None).
   Proof.
-    intros Hb Hk Hdr Happ HI3 Hk3 Hls3 Hl3 Hne Hnsd.
+    intros Hb Hk Hdr Happ HI3 Hk3 Hls3 Hl3 Hne Hnsd Hevs Hel.
     destruct (lib_half s3 Fin S3 b evs HI3 Hls3 Hb Hne Hnsd)
       as (s' & evQ & Fnew & -> & HI' & Hls' & HsQ & Hkeys & _).
     exists s', evs, evQ, (Fin ++ Fnew), S3.
@@ -610,7 +626,9 @@ Section WildLib.
     - intros Hmono x Hx [H|H].
       + apply Hkn; [exact Hx|]. rewrite Hk3. apply in_or_app. left. exact H.
       + right. apply Hdrop. unfold dropped in H. apply andb_true_iff in H as [H _]. apply N.ltb_lt in H. lia.
-    - apply Hkn; [exact Hb|]. rewrite Hk3. apply in_or_app. right. left. reflexivity.
+    - split; [apply Hkn; [exact Hb|]; rewrite Hk3; apply in_or_app; right; left; reflexivity|].
+      intros Hn. destruct evs as [|e0 evs']; [congruence|]. cbn [app].
+      exact (Forall_inv (Hel Hn)).
   Qed.
 
   (* a block that is already stored: nothing happens (a stored root is stored again, unchanged) *)
@@ -632,7 +650,7 @@ Section WildLib.
   Proof.
     intros HI Hb Hd Hinc. pose proof HI as [Hdb Hflast Hh].
     unfold MovingLibInv.incl_first in Hinc. apply andb_true_iff in Hinc as [Hinc Hid]. apply andb_true_iff in Hinc as [Hci Hls].
-    destruct (last_sent s) as [hd|] eqn:Els; [discriminate|]. destruct Hh as (-> & -> & Hall & Hroot).
+    destruct (last_sent s) as [hd|] eqn:Els; [discriminate|]. destruct Hh as (-> & -> & Hall & Hroot & Hcur).
     cbn [rev] in Hflast. apply N.eqb_eq in Hid. rewrite Hflast in Hid.
     specialize (Hroot Hci).
     assert (Hf : find (bid b) (store (db s)) = None) by (rewrite Hid; exact Hroot).
@@ -672,7 +690,8 @@ Section WildLib.
     - intros _ x Hx [H|H].
       + left. rewrite Hdbs2. cbn [new_db store]. rewrite keys_snoc. apply in_or_app. left. exact H.
       + unfold dropped in H. rewrite Els, andb_false_r in H. discriminate.
-    - left. rewrite Hdbs2. cbn [new_db store]. rewrite keys_snoc. apply in_or_app. right. left. reflexivity.
+    - split; [left; rewrite Hdbs2; cbn [new_db store]; rewrite keys_snoc; apply in_or_app; right; left; reflexivity|].
+      intros _. cbn [app ev elib]. exact Hcur.
   Qed.
 
   Lemma step_inv s Fin S b : Inv s Fin S -> In b U -> StepOut s Fin S b (fk_step cfg s b).
@@ -711,6 +730,7 @@ Section WildLib.
       - intros H. contradiction.
       - intros x Hx [H|H]; [left; rewrite Hk1; apply in_or_app; left; exact H | right; exact H].
       - left. rewrite Hk1. apply in_or_app. right. left. reflexivity. }
+    assert (Hcur1 : cursor_lib s1 = cursor_lib s) by reflexivity.
     apply orb_false_iff in Hgo as [Htr Hlong]. apply negb_false_iff in Htr.
     (* the chain of the new block *)
     assert (Hfb : find (bid b) (store (db s1)) = Some en).
@@ -746,7 +766,7 @@ Section WildLib.
       + unfold sent_chain_switch_segments in Hsw. rewrite Heq, N.eqb_refl in Hsw. injection Hsw as <- <- <-.
         rewrite Heq in HcH. pose proof (chain_det _ _ _ _ _ HcH HcP0) as ->.
         destruct (trigger_first s1 Fin S b pP pP [] [] None None HI1 Hb Hc) as
-          (s3 & evU & evRN & Hrun & Happ & HI3 & Hk3 & Hls3 & Hlr3 & Hnsd3).
+          (s3 & evU & evRN & Hrun & Happ & HI3 & Hk3 & Hls3 & Hlr3 & Hnsd3 & Hcl3 & Hne3).
         * rewrite app_nil_r. reflexivity.
         * exact HsH.
         * rewrite app_nil_r. exact HS.
@@ -757,21 +777,22 @@ Section WildLib.
         { intros f t e0 Hu He0. exact (tail_disjoint' (db s) pP (bparent b) Hdb HcP0 f t e0 Hu He0). }
         rewrite Hsc in Hsw. injection Hsw as <- <- <-.
         destruct (trigger_first s1 Fin S b pP C R Uh j None HI1 Hb Hc HP) as
-          (s3 & evU & evRN & Hrun & Happ & HI3 & Hk3 & Hls3 & Hlr3 & Hnsd3).
+          (s3 & evU & evRN & Hrun & Happ & HI3 & Hk3 & Hls3 & Hlr3 & Hnsd3 & Hcl3 & Hne3).
         * rewrite HH in HsH. apply Forall_app in HsH. tauto.
         * rewrite HS, HH. reflexivity.
         * exact Hnsd1.
         * fold en in Hrun. rewrite Hrun. eapply step_finish; eauto; congruence.
-    - injection Hsw as <- <- <-. destruct Hh as (-> & -> & Hall).
+    - injection Hsw as <- <- <-. destruct Hh as (-> & -> & Hall & _ & Hcur).
       assert (Hfil : filter esent pP = []).
       { assert (G : forall x, In x pP -> esent x = false).
         { intros x Hx. apply Hall. eapply chain_in; [exact HcP0 | exact Hx]. }
         clear -G. induction pP as [|h t IHt]; cbn [filter]; [reflexivity|].
         rewrite (G h (or_introl eq_refl)). apply IHt. intros x Hx. apply G. right. exact Hx. }
       destruct (trigger_first s1 [] [] b pP [] pP [] None None HI1 Hb Hc eq_refl (Forall_nil _) eq_refl Hnsd1) as
-        (s3 & evU & evRN & Hrun & Happ & HI3 & Hk3 & Hls3 & Hlr3 & Hnsd3).
+        (s3 & evU & evRN & Hrun & Happ & HI3 & Hk3 & Hls3 & Hlr3 & Hnsd3 & Hcl3 & Hne3).
       cbn [rev] in Hrun. rewrite Hfil in Hrun. fold en in Hrun. rewrite Hrun.
-      eapply step_finish; eauto; congruence.
+      eapply step_finish; eauto; try congruence.
+      intros _. eapply Forall_impl; [|exact Hcl3]. cbn beta. intros e0 ->. rewrite Hcur1. exact Hcur.
   Qed.
 
   (* ---------------------------------------------------------------- whole histories *)
@@ -779,23 +800,26 @@ Section WildLib.
   Definition Seen (s : fstate) (seen : list block) : Prop :=
     forall x, In x seen -> In x U /\ known s x.
 
+  Definition first_lib (s : fstate) (t : trace) : Prop :=
+    last_sent s = None -> match all_events t with e0 :: _ => ri (elib e0) = ri r0 | [] => True end.
+
   Lemma run_wild : forall h s Fin S seen, Inv s Fin S -> (forall b, In b h -> In b U) -> Seen s seen ->
     let t := fk_run cfg s h in
     length t = length h /\ Forall (fun x => snd x = ROk) t /\
     (exists S', apply_all (ri r0) S (all_events t) = Some S') /\
-    (lib_mono_b cfg s h = true -> c01_refeed_b seen h t = true).
+    (lib_mono_b cfg s h = true -> c01_refeed_b seen h t = true) /\
+    first_lib s t.
   Proof.
     induction h as [|b h IH]; intros s Fin S seen HI Hh Hseen.
     - cbn. repeat split; [constructor | exists S; reflexivity].
     - destruct (step_inv s Fin S b HI (Hh b (or_introl eq_refl))) as
-        (s' & evA & evQ & Fin' & S' & Hstep & Happ & HI' & HsQ & Hk1 & Hk2 & Hk3).
+        (s' & evA & evQ & Fin' & S' & Hstep & Happ & HI' & HsQ & Hk1 & Hk2 & Hk3 & Hfl).
       cbn [fk_run lib_mono_b]. rewrite Hstep.
       assert (Happ' : apply_all (ri r0) S (evA ++ evQ) = Some S').
       { rewrite (apply_all_app _ _ _ _ _ Happ). apply apply_all_inert. exact HsQ. }
-      (* the run after this step, for the two uses of the induction hypothesis *)
       assert (Hh' : forall x, In x h -> In x U) by (intros x Hx; apply Hh; right; exact Hx).
-      destruct (IH s' Fin' S' [] HI' Hh' (fun x (Hx : In x []) => match Hx with end)) as (Hlen & Hok & (S2 & Happ2) & _).
-      cbn zeta in *. split; [|split; [|split]].
+      destruct (IH s' Fin' S' [] HI' Hh' (fun x (Hx : In x []) => match Hx with end)) as (Hlen & Hok & (S2 & Happ2) & _ & Hfl2).
+      cbn zeta in *. split; [|split; [|split; [|split]]].
       + cbn [length]. rewrite Hlen. reflexivity.
       + constructor; [reflexivity | exact Hok].
       + exists S2. unfold all_events. cbn [map concat fst]. fold (all_events (fk_run cfg s' h)).
@@ -805,11 +829,13 @@ Section WildLib.
         { intros x [<-|Hx].
           - split; [apply Hh; left; reflexivity | exact Hk3].
           - destruct (Hseen x Hx) as [HxU Hkx]. split; [exact HxU | apply (Hk2 Hm1); assumption]. }
-        destruct (IH s' Fin' S' (b :: seen) HI' Hh' Hseen') as (_ & _ & _ & Hre).
+        destruct (IH s' Fin' S' (b :: seen) HI' Hh' Hseen') as (_ & _ & _ & Hre & _).
         cbn [c01_refeed_b]. rewrite (Hre Hm2), andb_true_r.
         destruct (existsb (block_eqb b) seen) eqn:Hex; [|reflexivity].
         apply existsb_exists in Hex as (x & Hx & Heq). apply block_eqb_eq in Heq. subst x.
         destruct (Hseen b Hx) as [_ Hb]. destruct (Hk1 Hb) as (_ & -> & ->). reflexivity.
+      + intros Hn. specialize (Hfl Hn). unfold all_events. cbn [map concat fst]. fold (all_events (fk_run cfg s' h)).
+        destruct (evA ++ evQ) as [|e0 rest]; cbn [app]; [exact (Hfl2 Hfl) | exact Hfl].
   Qed.
 
   Theorem wild_lib_run m h : rooted m -> (forall b, In b h -> In b U) ->
@@ -820,7 +846,7 @@ Section WildLib.
     c01_error_b (c_fail_at cfg) 0 t = true /\
     (lib_mono_b cfg (fs_init m) h = true -> c01_refeed_b [] h t = true).
   Proof.
-    intros Hm Hh. destruct (run_wild h (fs_init m) [] [] [] (inv_init m Hm) Hh) as (Hlen & Hok & (S' & Happ) & Hre).
+    intros Hm Hh. destruct (run_wild h (fs_init m) [] [] [] (inv_init m Hm) Hh) as (Hlen & Hok & (S' & Happ) & Hre & _).
     { intros x []. }
     cbn zeta. repeat split; try assumption.
     - exists S'. exact Happ.
